@@ -263,12 +263,29 @@ def h_grown_usable(nc_sel: int, na_sel: int, how: int) -> bool:
     """
     After append / extend every conformer (old and new) can be read, written as mol2/xyz and the ensemble serialises and deserialises
     with the right extents; appended molecules bring their coordinates (and partial charges), existing rows are unchanged.
-    pre: 0 <= nc_sel <= 2 and 1 <= na_sel <= 3 and 0 <= how <= 5
+    pre: 0 <= nc_sel <= 2 and 1 <= na_sel <= 3 and 0 <= how <= 8
     post: _
     """
     import molli.chem.io as mio
     nc, na = pick(nc_sel, 3), pick(na_sel, 4)
     e = _content_ens(nc, na)
+    if how >= 6:
+        # a growth step that is refused (the other object has another number of atoms) leaves the ensemble as it was: still rectangular, same content
+        c0, q0, w0 = e.coords.copy(), e.atomic_charges.copy(), e.weights.copy()
+        other_na = na + 1
+        try:
+            if how == 6:
+                e.extend(_content_ens(2, other_na))
+            elif how == 7:
+                e.append(Molecule([Atom("C") for _ in range(other_na)], coords=real_np.zeros((other_na, 3))))
+            else:
+                e.extend([Molecule([Atom("C") for _ in range(other_na)], coords=real_np.zeros((other_na, 3)))])
+            return False                                   # an atom-count mismatch must not be accepted silently
+        except (ValueError, IndexError, TypeError):
+            pass
+        if not rect(e, nc, na):
+            return False
+        return real_np.array_equal(e.coords, c0) and real_np.array_equal(e.atomic_charges, q0) and real_np.array_equal(e.weights, w0)
     c0, q0, w0 = e.coords.copy(), e.atomic_charges.copy(), e.weights.copy()
     old_views = [e[k] for k in range(nc)]          # conformer views taken before the growth: they stay views of their rows afterwards
     newc = real_np.full((na, 3), 0.5)
